@@ -250,6 +250,7 @@ pub fn gen_c12(run: &mut Run, seed: u64, thorough: bool) {
                         t.owner = new;
                     }
                     t.run.op("tk.owner", "q");
+            t.run.op("tk.token_id", "q");
                     t.run.op("tk.admin", "q");
                 }
                 _ => {
@@ -309,6 +310,7 @@ pub fn gen_c12(run: &mut Run, seed: u64, thorough: bool) {
             t.set_seq(50);
             t.run.op(&format!("tk.new {} {} {} {} {} {} {} {maxlive0}", t.tk.tok(), t.owner.tok(), Addr::c(3).tok(), hex::encode([7u8; 32]), hx(name), hx(symb), dec), "construct-metadata");
             t.run.op("tk.owner", "q");
+            t.run.op("tk.token_id", "q");
             t.run.op(&format!("tk.is_minter {}", t.owner.tok()), "q");
             t.run.op(&format!("tk.is_minter {}", Addr::c(3).tok()), "q");
             t.run.op(&format!("tk.is_minter {}", Addr::c(10).tok()), "q");
